@@ -76,7 +76,7 @@ CHECKS["C12"]=dict(cat="fault_enumeration", engine="faultfs", design="DESIGN.md 
    text="Every file-system call that touches the destination directory in every recorded history is a crash point and an error-injection point (1405 faulted runs in thorough); the destination must be byte-identical to its previous content (or absent) or open and read back every expected file; a build that returned Err must have left the previous state. Two fault-free recordings must issue the same call sequence.",
    note="Trusted: strace as injector/observer, kernel rename atomicity. Process death and I/O errors only (no power-loss block reordering: the code issues no fsync before rename). Temp litter tolerated and counted.")
 PENDING={}
-PENDING["C19"]=dict(cat="model_checking", engine="histbfs", design="DESIGN.md §3 C19",
+CHECKS["C19"]=dict(cat="model_checking", engine="histbfs", design="DESIGN.md §3 C19",
    technique="(threads) stateless exploration under loom: storm-ffi compiled with hook H1 so its Mutex/LazyLock/thread_local are loom's; 21 scenarios of 2-3 threads x 1-2 C-API calls on shared handles, all interleavings up to preemption bound 2/3, linearizability by differential against every sequential merge of the same calls; (sequential) explicit-state BFS over C-API call histories in forked children against a handle/cursor model and the Rust API",
    text="Threads: every interleaving of lock acquisitions for each scenario is executed on the real source; outcomes (return values + probes) must equal some sequential merge; no deadlock, panic or duplicate handle. Sequential: bounded-exhaustive call histories with stale/closed/null/forged handles and boundary buffer sizes, canaries on every buffer.",
    note="Trusted: loom, hook H1 facade (verif_sync). Code between two lock operations is atomic to the explorer; invalid pointers (as opposed to invalid handles/sizes) are the caller's contract.")
